@@ -118,10 +118,26 @@ pub fn make_batch(dir: &str, prefix: &str, rng: &mut Rng, want: usize, rep: &mut
         attempts += 1;
         let i = members.len();
         let p = &profs[attempts % profs.len()];
-        let mut g = if attempts % 9 == 0 && p.gtype == GType::LALR { wl::gen_lr_template(rng) } else { wl::gen_grammar(rng, p) };
+        let mut g = if attempts % 9 == 0 && p.gtype == GType::LALR {
+            wl::gen_lr_template(rng)
+        } else if attempts % 5 == 3 {
+            wl::gen_nested_rep_template(rng, p.gtype)
+        } else {
+            wl::gen_grammar(rng, p)
+        };
+        if with_inputs {
+            // C23: make every token occurrence distinguishable (order inside repetitions must be
+            // visible): letter terminals become /x[0-9]*/ and are rendered as x<position>
+            for t in g.terms.iter_mut() {
+                if t.quote == Quote::Raw && t.la.is_none() && t.text.len() == 1 && t.text.chars().all(|c| c.is_ascii_lowercase()) {
+                    t.text = format!("{}[0-9]*", t.text);
+                    t.quote = Quote::Regex;
+                }
+            }
+        }
         // C23: clipping is a property of the terminal (all its occurrences), never of non-terminals
         let clipped_terms: Vec<bool> = g.terms.iter().map(|_| rng.chance(1, 4)).collect();
-        fn apply_clip(alts: &mut Alts, clipped: &[bool], members: &mut usize, rng: &mut Rng) {
+        fn apply_clip(alts: &mut Alts, clipped: &[bool], members: &mut usize, rng: &mut Rng, clip_nts: bool) {
             for alt in alts.iter_mut() {
                 for f in alt.iter_mut() {
                     match f {
@@ -134,17 +150,19 @@ pub fn make_batch(dir: &str, prefix: &str, rng: &mut Rng, want: usize, rep: &mut
                             }
                         }
                         Factor::N(_, c) => {
-                            c.clip = false;
+                            // clipped non-terminal occurrences only where no token expectation is
+                            // derived from the sentence (C22); C23 keeps them unclipped
+                            c.clip = clip_nts && rng.chance(1, 5);
                             c.member = None;
                         }
-                        Factor::Grp(a) | Factor::Opt(a) | Factor::Rep(a) => apply_clip(a, clipped, members, rng),
+                        Factor::Grp(a) | Factor::Opt(a) | Factor::Rep(a) => apply_clip(a, clipped, members, rng, clip_nts),
                     }
                 }
             }
         }
         let mut nmem = 0;
         for r in g.rules.iter_mut() {
-            apply_clip(&mut r.alts, &clipped_terms, &mut nmem, rng);
+            apply_clip(&mut r.alts, &clipped_terms, &mut nmem, rng, !with_inputs);
         }
         if rng.chance(1, 2) {
             g.states[0].line_comments.push(("//".into(), Quote::Raw));
@@ -278,7 +296,7 @@ pub fn make_batch(dir: &str, prefix: &str, rng: &mut Rng, want: usize, rep: &mut
                     if wi > 0 {
                         text.push_str(if s % 3 == 0 { " " } else if s % 3 == 1 { "\n" } else { "  \t" });
                     }
-                    let lx = g.terms[*t].samples[wi % g.terms[*t].samples.len()].clone();
+                    let lx = if g.terms[*t].text.ends_with("[0-9]*") { format!("{}{}", g.terms[*t].samples[0], wi) } else { g.terms[*t].samples[wi % g.terms[*t].samples.len()].clone() };
                     if !clipped_terms[*t] {
                         expect.push(lx.clone());
                     }
@@ -423,7 +441,14 @@ pub fn run(ctx: &Ctx, c23: bool) -> i32 {
                         const SHADOWING: [&str; 13] = ["Vec", "Option", "Box", "String", "Result", "Token", "Ok", "Err", "Some", "None", "Span", "Range", "ToSpan"];
                         let shadows = m.g.nt_names().iter().any(|n| SHADOWING.contains(&n.as_str()));
                         let _ = code;
-                        rep.violation(json!({"kind": "generated-code-does-not-compile", "non_terminal_shadows_a_type_used_by_generated_code": shadows}), format!("rustc rejects the code generated for an accepted grammar: {}", truncate(e, 400)), json!({"grammar": m.par, "options": m.options, "errors": e, "crate": format!("{dir}/{}", m.name)}));
+                        // second classifier: two non-terminals whose names map to one type name
+                        // (A_B and a_b -> AB); parol renames the second type but not its uses
+                        let camel = |n: &str| -> String {
+                            n.trim_start_matches("r#").split('_').filter(|p| !p.is_empty()).map(|p| { let mut c = p.chars(); c.next().map(|f| f.to_uppercase().collect::<String>() + c.as_str()).unwrap_or_default() }).collect()
+                        };
+                        let names = m.g.nt_names();
+                        let same_type_name = names.iter().enumerate().any(|(i, a)| names.iter().skip(i + 1).any(|b| camel(a) == camel(b)));
+                        rep.violation(json!({"kind": "generated-code-does-not-compile", "non_terminal_shadows_a_type_used_by_generated_code": shadows, "two_non_terminals_map_to_one_type_name": same_type_name}), format!("rustc rejects the code generated for an accepted grammar: {}", truncate(e, 400)), json!({"grammar": m.par, "options": m.options, "errors": e, "crate": format!("{dir}/{}", m.name)}));
                     } else {
                         rep.inconclusive("member does not compile (C22)");
                     }
